@@ -557,6 +557,8 @@ impl ReadableDatabase for Database {
         let guard = TransactionGuard::allocate_read(self.transaction_tracker.clone(), &self.mem)?;
         #[cfg(feature = "logging")]
         debug!("Beginning read transaction id={:?}", guard.id());
+        #[cfg(redb_verif)]
+        crate::sync::verif_pause("begin_read:registered");
         ReadTransaction::new(self.get_memory(), guard)
     }
 
@@ -1433,6 +1435,8 @@ impl Database {
 
 impl Drop for Database {
     fn drop(&mut self) {
+        #[cfg(redb_verif)]
+        crate::sync::verif_pause("database_drop");
         if self
             .transaction_tracker
             .defer_close_if_write_transaction_live(&self.mem)
